@@ -106,6 +106,7 @@ void iom_pause(int delta);                  /* per-thread: >0 = pass-through */
 /* occurrence counters (op class x path class), counted whether or not tracing */
 uint64_t iom_count(int op, int pc);
 void iom_counts_reset(void);
+uint64_t iom_total_calls(void);             /* all intercepted calls of non-paused threads since start (never reset) */
 
 /* faults */
 enum { IOF_CLEAN = 0, IOF_SHORT = 1 };
